@@ -115,6 +115,53 @@ def gen_cases(ctx, rng):
             stats["multi_link"] += 1
         stats["preserving_only" if pres else "with_timeout_or_limit"] += 1
         cases.append(c)
+    # an operation in each of the pauses of a slicer that is pacing one packet out in k pieces - in particular the pause before the last
+    # piece - on the slicer itself (update, remove, reset) or on a neighbour (add behind it, remove the one in front)
+    stats["in_each_slicer_pause"] = 0
+    for i in range(18 if ctx.tier == "quick" else 400):
+        S = rng.choice([50, 333, 500])
+        k = 2 + i % 3
+        D = rng.choice([20, 150]) * 1000            # us
+        sl = L.tx("slicer", name="s", average_size=S, size_variation=0, delay=D)
+        front = [L.tx("noop", name="f")] if i % 2 else []
+        pause = (i // 3) % (k - 1) if i % 5 else k - 2          # which pause the operation lands in (mostly spread, every fifth the last one)
+        at = 10 * L.MS + pause * D * 1000 + D * 500 + 7
+        how = ["update", "remove", "reset", "add_behind", "remove_front"][i % 5]
+        if how == "remove_front" and not front:
+            how = "remove"
+        op = {"update": {"at": at, "op": "update", "name": "s", "body": json.dumps({"attributes": {"delay": D}})},
+              "remove": {"at": at, "op": "remove", "name": "s"}, "reset": {"at": at, "op": "reset"},
+              "add_behind": {"at": at, "op": "add", "toxic": L.tx("noop", name="z")},
+              "remove_front": {"at": at, "op": "remove", "name": "f"}}[how]
+        src = [{"at": 10 * L.MS, "n": k * S}, {"at": 10 * L.MS + (k + 3) * D * 1000, "n": 77}, {"at": 10 * L.MS + (2 * k + 8) * D * 1000, "close": True}]
+        cases.append({"dir": rng.choice(["upstream", "downstream"]), "chain": front + [sl], "src": src, "ops": [op],
+                      "horizon": 3600 * 1000 * L.MS, "seed": 6000 + i, "preserving": True})
+        stats["in_each_slicer_pause"] += 1
+    # a toxic removed (or everything reset) while its stage has been stuck for 1-4 s - below the 5 s of the property's premise - handing a
+    # chunk to a busy stage behind it (a bandwidth toxic working through a large write) with a backlog queued in front; then the stage
+    # behind is removed too: nothing of the backlog may be lost or overtaken
+    stats["removed_while_blocked_behind_busy_stage"] = 0
+    for i in range(12 if ctx.tier == "quick" else 300):
+        rate = rng.choice([1, 2])
+        big = rng.choice([2000, 2500, 3500]) * rate
+        X = L.tx("latency", name="x", latency=rng.choice([5, 20]), jitter=0)
+        Y = L.tx("bandwidth", name="y", rate=rate)
+        src = [{"at": 5 * L.MS, "n": big}]
+        t = 40 * L.MS
+        for _ in range(rng.range(8, 21)):
+            src.append({"at": t, "n": rng.range(5, 60)})
+            t += rng.choice([3, 10, 25]) * L.MS
+        busy_until = 5 + big // rate                   # ms
+        R = rng.range(300, max(400, busy_until - 1200)) * L.MS + 333          # the stage in front has then been blocked for a while and stays so for > 1 s
+        how = i % 3
+        ops = [{"at": R, "op": "reset"}] if how == 0 else [{"at": R, "op": "remove", "name": "x"}, {"at": R + 1 * L.MS, "op": "remove", "name": "y"}] if how == 1 else \
+              [{"at": R, "op": "update", "name": "x", "body": json.dumps({"attributes": {"latency": 1}})}, {"at": R + 1 * L.MS, "op": "remove", "name": "x"},
+               {"at": R + 2 * L.MS, "op": "remove", "name": "y"}]
+        src.append({"at": (busy_until + 3000) * L.MS, "n": 111})
+        src.append({"at": (busy_until + 6000) * L.MS, "close": True})
+        cases.append({"dir": rng.choice(["upstream", "downstream"]), "chain": [X, Y], "src": src, "ops": ops,
+                      "horizon": 3600 * 1000 * L.MS, "seed": 6500 + i, "preserving": True})
+        stats["removed_while_blocked_behind_busy_stage"] += 1
     return cases, stats
 
 
